@@ -126,7 +126,10 @@ func sortStrings(xs []string) {
 }
 
 func (g *ogen) failing() onode {
-	act := g.r.Pick([]string{"{{ nope }}", "{{ ia / zero }}", "{{ li[9] }}", "{{ st.Missing }}", "{{ np.A }}", "{{ fail(\"x\") }}", "{{yield nosuchblock()}}", "{{include \"/absent.jet\"}}", "{{ sa - 1 }}", "{{ li[1:9] }}", "{{range ia}}x{{end}}", "{{ upper(_) }}"})
+	act := g.r.Pick([]string{"{{ nope }}", "{{ ia / zero }}", "{{ li[9] }}", "{{ st.Missing }}", "{{ np.A }}", "{{ fail(\"x\") }}", "{{yield nosuchblock()}}", "{{include \"/absent.jet\"}}", "{{ sa - 1 }}", "{{ li[1:9] }}", "{{range ia}}x{{end}}", "{{ upper(_) }}",
+		"{{ cat(\"a\", _) }}", "{{ cat(\"a\", \"b\", _) }}", "{{ add3(1, _, 2) }}", "{{ add3(1, 2) }}", "{{ add3(1, 2, 3, 4) }}", "{{ sa() }}", "{{ st.A() }}",
+		"{{ ident(n) }}", "{{ sa | nope }}", "{{ upper(ia, ia) }}", "{{ repeat(sa, sa) }}", "{{ len() }}", "{{ map(\"k\") }}", "{{ ints(3, 1) }}", "{{ li[sa] }}", "{{ m.k.x.y }}", "{{ -sa }}",
+		"{{ ia % zero }}", "{{ n.x }}", "{{ li[-1] }}", "{{ sa[5:2] }}"})
 	return onode{src: act, out: "", failOff: 0}
 }
 
